@@ -38,6 +38,7 @@ func init() {
 			{ID: "C10.15", Desc: "a stored body that ends early makes the entry unreadable (read to its end while parsing)", Run: func(c *Ctx) { ruleStoredBodyComplete(c, "C10.15") }, MinSites: 1},
 			{ID: "C10.16", Desc: "a nil header map of the upstream response is replaced before the cache writes fields into it", Run: func(c *Ctx) { ruleUpstreamHeaderRepaired(c, "C10.16") }, MinSites: 1},
 			{ID: "C10.17", Desc: "a stale-if-error window too large to represent saturates (else the origin's error is returned although a stale response may be used)", Run: func(c *Ctx) { ruleSaturation(c, "C10.17") }, MinSites: 2},
+			{ID: "C10.18", Desc: "collaborators are assigned before they are handed to other collaborators' constructors", Run: func(c *Ctx) { ruleCtorFieldsAssignedBeforeUse(c, "C10.18") }, MinSites: 1},
 		},
 	})
 }
